@@ -59,10 +59,14 @@ SPEC = [
         "fields": ["threshold", "branching_factor", "_merge_accept_fn"],
         "partial_init": True}),
     ("bblean/cli.py", {"functions": ["_validate_output_dir"]}),
+    # how `bb fps-from-smiles` sizes its batches and pads the part numbers (a function nested in the command)
+    ("bblean/cli.py", {"nested_functions": [("_fps_from_smiles", "parse_num_per_batch")]}),
     # publication of a result file: written under a temporary name, then renamed
     ("bblean/multiround.py", {"functions": ["_pickle_dump_atomic"]}),
     # the body of the `while True:` loop of the monitor daemon, as a function of the running maximum: its file effects and
     # the new maximum (`total_rss()`, a closure over psutil, is an input)
+    # the reader of the peak file: existence test, open, read, parse (the test and the content are inputs)
+    ("bblean/_memory.py", {"functions": ["get_peak_memory_gib"]}),
     ("bblean/_memory.py", {"loop_bodies": [("monitor_rss_process", ["max_rss_gib", "file", "start_time", "interval_s"], ["max_rss_gib"])]}),
 ]
 # a parameter annotated with this class is a merge-function object (class name :: attributes); calling it dispatches on the
@@ -352,6 +356,9 @@ class Translator:
             return f"(PV.itemLast {self.expr(f.value, cx)})"
         if isinstance(f, ast.Name) and f.id == "max" and len(e.args) == 2 and not e.keywords:
             return f"(PV.max2 {self.expr(e.args[0], cx)} {self.expr(e.args[1], cx)})"
+        if isinstance(f, ast.Name) and f.id == "len" and len(e.args) == 1 and isinstance(e.args[0], ast.Call) \
+                and isinstance(e.args[0].func, ast.Name) and e.args[0].func.id == "str" and len(e.args[0].args) == 1:
+            return f"(PV.lenStr {self.expr(e.args[0].args[0], cx)})"
         if isinstance(f, ast.Name) and f.id == "len" and len(e.args) == 1 and not e.keywords:
             return f"(PV.len {self.expr(e.args[0], cx)})"
         if isinstance(f, ast.Name) and f.id == "list" and len(e.args) == 1 and not e.keywords:
@@ -388,6 +395,24 @@ class Translator:
             sname = ident(f.id + "_call")
             cx["symbols"].add(sname)
             return sname
+        # <path>.exists() on a local path: an input of the function
+        if isinstance(f, ast.Attribute) and f.attr == "exists" and isinstance(f.value, ast.Name) and f.value.id in cx["locals"] \
+                and not e.args and not e.keywords:
+            sname = ident(f.value.id + "_exists")
+            cx["symbols"].add(sname)
+            return sname
+        # f.read() on a handle bound by `with open(...) as f`: the content is an input (the `read` effect is recorded by the statement)
+        if isinstance(f, ast.Attribute) and f.attr == "read" and isinstance(f.value, ast.Name) and f.value.id in cx.get("handles_open", {}) \
+                and not e.args and not e.keywords:
+            sname = ident(f.value.id + "_read")
+            cx["symbols"].add(sname)
+            return sname
+        if isinstance(f, ast.Attribute) and f.attr == "strip" and not e.args and not e.keywords:
+            return f"(PV.strStrip {self.expr(f.value, cx)})"
+        if t == "math.ceil" and len(e.args) == 1 and not e.keywords:
+            return f"(PV.ceilF {self.expr(e.args[0], cx)})"
+        if isinstance(f, ast.Name) and f.id == "float" and len(e.args) == 1 and not e.keywords:
+            return f"(PV.floatOf {self.expr(e.args[0], cx)})"
         # <path>.with_name(e) on an opaque path parameter: the sibling of that name
         if isinstance(f, ast.Attribute) and f.attr == "with_name" and isinstance(f.value, ast.Name) and f.value.id in cx["opaque"] \
                 and len(e.args) == 1 and not e.keywords:
@@ -475,12 +500,13 @@ class Translator:
                 raise Unsupported(f"open() without a literal mode (line {s.lineno})")
             a0 = ce.args[0]
             path = f'(PV.str "{a0.id}")' if isinstance(a0, ast.Name) and a0.id in cx["opaque"] else self.expr(a0, cx)
-            cx2 = dict(cx, locals=cx["locals"] | {"eff_"}, handles=dict(cx.get("handles", {}), **{it.optional_vars.id: path}))
+            cx2 = dict(cx, locals=cx["locals"] | {"eff_"}, fh=dict(cx.get("fh", {}), **{it.optional_vars.id: path}),
+                       handles_open=dict(cx.get("fh", {}), **{it.optional_vars.id: path}))
             return (pad + f'let eff_ := eff_ ++ [PV.str "open", {path}, PV.str "{mode.value}"]\n'
                     + self.stmts(list(s.body) + [_Close(path)] + rest, cx2, kind, end, ind))
         if isinstance(s, ast.Expr) and isinstance(s.value, ast.Call):
             c_ = s.value
-            hs = cx.get("handles", {})
+            hs = cx.get("fh", {})
             # f.write(x) / f.flush() / os.fsync(f.fileno()) on a handle bound by `with open(...) as f`
             if isinstance(c_.func, ast.Attribute) and isinstance(c_.func.value, ast.Name) and c_.func.value.id in hs:
                 path = hs[c_.func.value.id]
@@ -574,6 +600,16 @@ class Translator:
                 cx2 = dict(cx, locals=cx["locals"] | {"eff_"})
                 return pad + f"let eff_ := eff_ ++ [{args}]\n" + self.stmts(rest, cx2, kind, end, ind)
             raise Unsupported(f"statement {src_of(s)} (line {s.lineno})")
+        if isinstance(s, ast.Assign) and cx.get("fh") and not getattr(s, "_read_done", False):
+            reads = [n for n in ast.walk(s.value) if isinstance(n, ast.Call) and isinstance(n.func, ast.Attribute)
+                     and n.func.attr == "read" and isinstance(n.func.value, ast.Name) and n.func.value.id in cx["fh"]]
+            if reads:
+                if len(reads) != 1:
+                    raise Unsupported(f"several reads in one statement (line {s.lineno})")
+                s._read_done = True
+                cx2 = dict(cx, locals=cx["locals"] | {"eff_"})
+                return pad + f'let eff_ := eff_ ++ [PV.str "read", {cx["fh"][reads[0].func.value.id]}]\n' \
+                    + self.stmts([s] + rest, cx2, kind, end, ind)
         if isinstance(s, (ast.Assign, ast.AugAssign, ast.AnnAssign)):
             if isinstance(s, ast.Assign):
                 if len(s.targets) != 1:
@@ -661,6 +697,8 @@ class Translator:
             if cx.get("mutating"):
                 flds = self.classes[cx["cls"]]["fields"]
                 return pad + "[" + ", ".join([self.expr(s.value, cx)] + [cx["selfattrs"][x] for x in flds]) + "]"
+            if cx.get("ret_effects"):
+                return pad + f"eff_ ++ [{self.expr(s.value, cx)}]"
             return pad + (self.expr(s.value, cx) if kind == "V" else self.lexpr(s.value, cx))
         if isinstance(s, ast.Raise):
             exc = s.exc
@@ -762,7 +800,7 @@ class Translator:
         has_raise = any(isinstance(n, ast.Raise) for n in ast.walk(fn))
         status_first = mutating and (has_return_value or has_raise)
         is_proc = is_method and not is_init and not has_return_value and not mutating
-        is_fproc = (not is_method) and not has_return_value and uses_effects
+        is_fproc = (not is_method) and uses_effects      # with a return value: the effect list ends with the value
         kind = "L" if (mutating or is_fproc) else self.fn_kind(fn, is_init, is_proc)
         # opaque parameters: those whose attributes are read (other than by vocabulary methods)
         opaque = set()
@@ -782,7 +820,8 @@ class Translator:
         cx = {"params": set(params) - opaque - set(objparams), "selfattrs": selfattrs, "symbols": set(),
               "locals": set(), "opaque": opaque, "dataclass_fields": fields if is_classmethod else None,
               "written": [], "cls": cls, "objparams": objparams, "listparams": listparams, "mutating": mutating,
-              "status_first": status_first, "closures": set(getattr(fn, "_closures", [])), "handles": handle_params}
+              "status_first": status_first, "closures": set(getattr(fn, "_closures", [])), "handles": handle_params,
+              "ret_effects": is_fproc and has_return_value}
         partial = is_init and self.classes[cls].get("partial_init")
         if partial:
             def end(c):
@@ -1013,6 +1052,15 @@ class Translator:
 
         if spec.get("dispatch"):
             self.emit_dispatch([k for k in spec["classes"] if "__call__" in self.classes[k]["methods"]], path)
+        for outer_name, inner_name in spec.get("nested_functions", []):
+            if outer_name not in top or not isinstance(top[outer_name], ast.FunctionDef):
+                raise Unsupported(f"function {outer_name} not found in {path}")
+            inner = [n for n in top[outer_name].body if isinstance(n, ast.FunctionDef) and n.name == inner_name]
+            if len(inner) != 1:
+                raise Unsupported(f"{outer_name}: nested function {inner_name} not found")
+            # a closure over the enclosing scope would read free names: the translation of names fails on them ("free name")
+            info, _ = self.emit_fn(inner[0], ident(inner_name), path, f"{outer_name}.<locals>.{inner_name}")
+            self.fns[inner_name] = info
         for fname, params_, state_ in spec.get("loop_bodies", []):
             if fname not in top or not isinstance(top[fname], ast.FunctionDef):
                 raise Unsupported(f"function {fname} not found in {path}")
